@@ -18,7 +18,20 @@ R1  the per-flight context exists wherever it is used (T-PAIR, must-dataflow on
 R2  no builder-persistent state is carried between flights (effects):
     attributes stored on the builder while flying that are not redirected to
     the context must not be read while flying, and persistent containers of
-    the builder must not be mutated while flying.
+    the builder must not be mutated while flying.  The redirection itself is
+    decided by what `__getattr__` / `__setattr__` *do*: both are run by the
+    checker's interpreter (helpers followed as written, the attribute
+    protocol - `__getattribute__`, getattr / hasattr / setattr, `__dict__` /
+    vars, `super().__setattr__` / `object.__setattr__` - answered for the
+    situation) in every situation they are called in: no context / a context
+    that lacks the name / a context that holds it, the builder having the
+    name or not, and the name being `ctx` itself.  A read of a name the
+    builder lacks returns the context's value when the context exists and
+    holds the name and raises AttributeError otherwise, with no store
+    anywhere; a write goes to the context exactly when it exists and holds
+    the name, otherwise to the builder, never to both.  An ordinary
+    `self.<name>` look-up inside `__getattr__` that re-enters it is reported
+    as the RecursionError it is.
 R3  convergence gate, decided on the CFG of `_iterate_mass` by must-dataflow:
     every `return <trajectory>` is reached only with `abs(residual) <
     tolerance` established for the iteration that produced that trajectory
@@ -30,15 +43,32 @@ R3  convergence gate, decided on the CFG of `_iterate_mass` by must-dataflow:
     `_fly_iteration()` invalidates what was established.  Trajectory and
     residual are the components of one `_fly_iteration()` result, unpacked
     together or held in one local and read through the record's fields;
-    rebinding one without the other is a violation.  The signed residual, a
-    tolerance wider than requested, and convergence concluded from the
-    *failure* of a `>=` test (true for NaN) do not establish the gate.  The
+    rebinding one without the other is a violation.  `abs(-r)` and
+    `max(r, -r)` are magnitudes of r; `-r < tol` says `r > -tol`.  The signed
+    residual, a tolerance wider than requested, and convergence concluded
+    from the *failure* of a `>=` test (true for NaN) do not establish the
+    gate.  Neither does a one-sided comparison with the tolerance of any other
+    quantity computed from the iteration's result (the fuel state of its
+    trajectory, a recomputed leftover, held in a local or not): when such a
+    quantity is sign-preserving arithmetic (+ - * /, odd powers, min/max,
+    float()) over the result's data and the builder's state, with no
+    magnitude (abs, even power, sqrt, norm) taken, and it is bounded from one
+    side only, every value of the wrong sign passes as converged - reported
+    as the violation it is, naming the quantity.  Such a quantity bounded on
+    both sides, or under abs(), is not decided (exit 2: its equality with the
+    residual is not established), and no one-sided-test violation is claimed
+    while an unclassified ordering comparison of an iteration quantity may
+    supply the missing bound.  The
     residual returned by `_fly_iteration` equals (trip fuel − fuel burned) /
     trip fuel as an exact rational function.
 R4  nothing on the exceptional path replaces the rejection reason: for every
     exception handler and `finally` block of a builder method, on the CFG:
-    no path through a handler continues normally (swallow; exempt: a clause
-    for look-up errors around a block without calls or raises); every `raise`
+    no path through a handler continues normally (swallow; exempt, wherever
+    the handler sits: a clause that catches only look-up errors - KeyError,
+    IndexError, LookupError, StopIteration, AttributeError - around a block
+    that only looks things up: it raises nothing else and calls nothing but
+    the attribute protocol and resolved functions that in turn only look
+    things up); every `raise`
     in a handler is bare or re-raises the bound name (no rewrap, no `from`),
     and a bare `raise` is not in a handler nested inside another handler
     (it would re-raise the secondary error); evaluating the handler / finally
@@ -62,6 +92,7 @@ from ..astutil import (MUTATING_METHODS, ancestors, assigned_names, call_name, c
                        is_within, local_defs, norm, single_def_value, stmt_of, stores_to, walk_no_nested)
 from ..cfg import CFG
 from ..resolve import closure, resolve_call
+from .c13 import _ClassRef, _Interp, _Raised, _Rec, _Tok, _Undecidable
 
 BASE = 'trajectories/builders/base.py'
 CTX_ATTR = 'ctx'
@@ -343,19 +374,18 @@ class FlightWrapper:
     def swallows(self, h) -> bool:
         return any(self.g.reaches(x, self.g.exit) for x in self.g.nodes_of(h))
 
-    def body_can_only_fail_locally(self, t: ast.Try, h: ast.ExceptHandler) -> bool:
-        """the protected block contains no call and no raise, and the clause catches only look-up errors: whatever
-        it handles was produced by the block's own subscripts, never by the flight machinery"""
+    def body_can_only_fail_locally(self, t: ast.Try, h: ast.ExceptHandler, lookup_call=None) -> bool:
+        """the clause catches only look-up errors (a missing key, index or attribute), and the protected block only
+        looks things up: it raises nothing but look-up errors and calls nothing but the attribute protocol
+        (getattr / hasattr / setattr / `__getattribute__` / vars ...) and functions that in turn only look things
+        up (`lookup_call`).  Whatever such a handler catches was produced by the block's own look-ups, never by the
+        flight machinery - wherever the handler sits."""
         if h.type is None:
             return False
         names = {norm(x).split('.')[-1] for x in (h.type.elts if isinstance(h.type, ast.Tuple) else [h.type])}
-        if not names <= {'KeyError', 'IndexError', 'LookupError', 'StopIteration'}:
+        if not names <= LOOKUP_ERRORS:
             return False
-        for n in self.g.nodes:
-            if n.stmt is not None and n.kind != 'except' and any(is_within(n.stmt, s) for s in t.body) \
-                    and n.why_raise & {'call', 'raise'}:
-                return False
-        return True
+        return _only_looks_up(t.body, lookup_call or attr_protocol_call)
 
     def raises_of(self, h):
         """raise statements whose innermost handler is h"""
@@ -379,6 +409,58 @@ class FlightWrapper:
                     if lp is None or not any(is_within(lp, f) for f in t.finalbody):
                         out.append(x)
         return out
+
+
+LOOKUP_ERRORS = {'KeyError', 'IndexError', 'LookupError', 'StopIteration', 'AttributeError'}
+_PROTOCOL_FUNCS = {'getattr', 'hasattr', 'setattr', 'delattr', 'vars', 'type', 'isinstance', 'id', 'callable', 'super', 'object'}
+_PROTOCOL_METHODS = {'__getattribute__', '__getattr__', '__setattr__', '__delattr__'}
+
+
+def attr_protocol_call(c: ast.Call) -> bool:
+    """a call of the attribute protocol itself: it can fail with a look-up error of the object asked, and runs nothing
+    of the flight machinery"""
+    f = c.func
+    if isinstance(f, ast.Name):
+        return f.id in _PROTOCOL_FUNCS
+    if isinstance(f, ast.Attribute):
+        if f.attr in _PROTOCOL_METHODS:
+            return True
+        return f.attr in ('get', 'keys', 'values', 'items') and (
+            (isinstance(f.value, ast.Attribute) and f.value.attr == '__dict__')
+            or (isinstance(f.value, ast.Call) and call_name(f.value) == 'vars'))
+    return False
+
+
+def _only_looks_up(stmts, lookup_call) -> bool:
+    for s in stmts:
+        for x in walk_no_nested(s):
+            if isinstance(x, ast.Raise):
+                e = x.exc.func if isinstance(x.exc, ast.Call) else x.exc
+                if e is None or norm(e).split('.')[-1] not in LOOKUP_ERRORS:
+                    return False
+            elif isinstance(x, ast.Call) and not lookup_call(x):
+                return False
+            elif isinstance(x, (ast.Await, ast.Yield, ast.YieldFrom)):
+                return False
+    return True
+
+
+def lookup_call_in(prog, fi, depth: int = 0, stack=()):
+    """predicate on the calls written in `fi`: the attribute protocol, or a resolved repository function whose body
+    only looks things up in the same sense (followed through helpers)"""
+    def pred(c: ast.Call) -> bool:
+        if attr_protocol_call(c):
+            return True
+        if depth >= 3:
+            return False
+        try:
+            callee = resolve_call(prog, fi, c)
+        except Exception:
+            callee = None
+        if callee is None or any(callee is k for k in stack) or callee.decorators():
+            return False
+        return _only_looks_up(callee.node.body, lookup_call_in(prog, callee, depth + 1, stack + (callee,)))
+    return pred
 
 
 def _where(n):
@@ -416,7 +498,8 @@ def rule_pairing(ctx, m):
                 for i, x in enumerate(p) if g.nodes[x].stmt is not None]
 
     for r in rel:
-        ok = ins.get(r.id, True)
+        # a release whose AttributeError is caught right there is judged by what that handler does (R4)
+        ok = ins.get(r.id, True) or fw._attribute_error_caught(r)
         ctx.ob('C17-R1', fly, f'release `{norm(r.stmt)}` in finally copy {r.fin or ("body",)}', ok,
                'the context is definitely acquired (or the release is guarded) on every path reaching it'
                if ok else
@@ -561,16 +644,8 @@ def rule_persistent(ctx, m):
         if not persistent_written:
             ctx.ob('C17-R2', (b.file, b.name), 'no builder-persistent attribute written during a flight', True,
                    'all stores go to the per-flight context')
-    # the redirection itself: __setattr__ routes to ctx iff ctx has the attribute
-    sa = base.methods.get('__setattr__')
-    ga = base.methods.get('__getattr__')
-    for meth, what in ((sa, 'setattr(ctx, name, value)'), (ga, 'getattr(ctx, name)')):
-        if meth is None:
-            ctx.undecided('C17-R2', (m.relpath, 'Builder'), '__setattr__/__getattr__', 'redirection method missing')
-        src = ' '.join(norm(s) for s in meth.node.body)
-        ok = 'hasattr(ctx, name)' in src and what in src
-        ctx.ob('C17-R2', meth, 'attribute redirection to the context', ok,
-               f'`if hasattr(ctx, name): {what}`' if ok else 'redirection idiom changed', nontrivial=False)
+    # the redirection itself, decided by what the two methods do in every situation they can be called in
+    rule_redirection(ctx, m, base)
     # module-level caches on the flight path must be pure functions of their arguments
     if ctx.tier == 'thorough':
         for f in prog.all_functions():
@@ -587,6 +662,227 @@ def _inside(n, anc):
     return any(a is anc for a in ancestors(n))
 
 
+# ----------------------------------------------------------------------------------------------------
+# R2, the redirection: `__getattr__` / `__setattr__` evaluated in every situation they are called in
+# ----------------------------------------------------------------------------------------------------
+
+class _Redirection(_Interp):
+    """The checker's interpreter (of the extracted AST; nothing of the repository is run) with the attribute protocol
+    answered for one situation: does the builder have a per-flight context, does that context hold the name asked
+    for, does the builder itself have the name.  `self` is the builder, helper methods are followed as written.
+    What is decided is the *outcome* - the value returned or the exception raised, and where a store went - not the
+    way it is spelled."""
+
+    def __init__(self, prog, ci, root: str, own: set, name: str, has_ctx: bool, holds: bool, builder_has: bool):
+        super().__init__(prog)
+        self.ci, self.root, self.own, self.name = ci, root, own, name
+        self.has_ctx, self.holds, self.builder_has = has_ctx, holds, builder_has
+        self.B = _Rec(ci.name, {}, ci)
+        self.C = _Tok('the context')
+        self.CTXVAL, self.OLD, self.VAL = _Tok(f'<context>.{name}'), _Tok(f'<builder>.{name}'), _Tok('the value')
+        self.bdict = {}
+        if has_ctx:
+            self.bdict[CTX_ATTR] = self.C
+        if builder_has and name != CTX_ATTR:
+            self.bdict[name] = self.OLD
+        self.effects = []
+
+    # -- what the attribute protocol answers ---------------------------------------------------------
+    def _reenter(self, nm):
+        """an implicit look-up of a name the builder does not have, from inside the redirection methods"""
+        if self.root == '__getattr__':
+            raise _Raised(RecursionError(f'__getattr__ looks up self.{nm} the ordinary way, which calls __getattr__ again'))
+        # from __setattr__: what __getattr__ answers
+        if nm == self.name and self.has_ctx and self.holds:
+            return self.CTXVAL
+        raise _Raised(AttributeError(nm))
+
+    def _direct(self, nm):
+        """object.__getattribute__(builder, nm): the builder's own state only"""
+        if nm in self.bdict:
+            return self.bdict[nm]
+        if nm in self.own and nm != CTX_ATTR:
+            return _Tok(f'<builder>.{nm}')
+        raise _Raised(AttributeError(nm))
+
+    def _builder_get(self, nm):
+        try:
+            return self._direct(nm)
+        except _Raised as r:
+            if isinstance(r.exc, AttributeError):
+                return self._reenter(nm)
+            raise
+
+    def _ctx_get(self, nm):
+        if nm == self.name:
+            if self.holds:
+                return self.CTXVAL
+            raise _Raised(AttributeError(nm))
+        raise _Undecidable(f'look-up of `{nm}` on the context')
+
+    def _get(self, obj, nm):
+        if not isinstance(nm, str):
+            raise _Undecidable('attribute name is not a string')
+        if obj is self.B:
+            return self._builder_get(nm)
+        if obj is self.C:
+            return self._ctx_get(nm)
+        if obj is None:
+            raise _Raised(AttributeError(nm))   # None has none of the names asked for here
+        raise _Undecidable('attribute look-up on another object')
+
+    def _store_builder(self, nm, v):
+        self.effects.append(('builder', nm, v))
+        self.bdict[nm] = v
+
+    # -- expressions ---------------------------------------------------------------------------------
+    def eval(self, e, fi, sc):
+        if isinstance(e, ast.Attribute) and isinstance(e.ctx, ast.Load):
+            v = self.eval(e.value, fi, sc)
+            if v is self.B:
+                if e.attr == '__dict__':
+                    return self.bdict
+                if e.attr == '__class__':
+                    return _ClassRef(self.ci)
+                return self._builder_get(e.attr)
+            if v is self.C:
+                raise _Undecidable(f'attribute {e.attr} of the context read directly')
+            if isinstance(v, _ClassRef) and e.attr in ('__name__', '__qualname__'):
+                return v.ci.name
+            if isinstance(v, _Tok):
+                return _Tok(f'{v.path}.{e.attr}')
+        return super().eval(e, fi, sc)
+
+    def _is_base_receiver(self, f: ast.Attribute):
+        """`super().m(...)` -> 'super'; `object.m(self, ...)` -> 'object'"""
+        if isinstance(f.value, ast.Call) and call_name(f.value) == 'super':
+            return 'super'
+        if isinstance(f.value, ast.Name) and f.value.id == 'object':
+            return 'object'
+        return None
+
+    def eval_call(self, e, fi, sc):
+        ev = lambda x: self.eval(x, fi, sc)  # noqa: E731
+        f = e.func
+        plain = not e.keywords and not any(isinstance(a, ast.Starred) for a in e.args)
+        if isinstance(f, ast.Name) and plain:
+            if f.id in ('getattr', 'hasattr') and len(e.args) in ((2, 3) if f.id == 'getattr' else (2,)):
+                obj, nm = ev(e.args[0]), ev(e.args[1])
+                try:
+                    v = self._get(obj, nm)
+                except _Raised as r:
+                    if not isinstance(r.exc, AttributeError):
+                        raise
+                    if f.id == 'hasattr':
+                        return False
+                    if len(e.args) == 3:
+                        return ev(e.args[2])
+                    raise
+                return True if f.id == 'hasattr' else v
+            if f.id == 'setattr' and len(e.args) == 3:
+                obj, nm, v = ev(e.args[0]), ev(e.args[1]), ev(e.args[2])
+                if obj is self.C:
+                    self.effects.append(('context', nm, v))
+                    return None
+                raise _Undecidable('setattr() on the builder from inside the redirection')
+            if f.id == 'vars' and len(e.args) == 1 and ev(e.args[0]) is self.B:
+                return self.bdict
+            if f.id == 'type' and len(e.args) == 1:
+                v = ev(e.args[0])
+                if v is self.B:
+                    return _ClassRef(self.ci)
+            if f.id == 'object' and not e.args:
+                return _Tok('a sentinel')
+        if isinstance(f, ast.Attribute) and plain and f.attr in ('__getattribute__', '__setattr__', '__getattr__'):
+            basecls = self._is_base_receiver(f)
+            args = [ev(a) for a in e.args]
+            if basecls == 'object':
+                if not args or args[0] is not self.B:
+                    raise _Undecidable(f'object.{f.attr} on another object')
+                args = args[1:]
+            elif basecls is None and ev(f.value) is not self.B:
+                raise _Undecidable(f'{f.attr} on another object')
+            if f.attr == '__getattribute__' and len(args) == 1:
+                if not isinstance(args[0], str):
+                    raise _Undecidable('attribute name is not a string')
+                return self._direct(args[0])          # the explicit call does not fall back to __getattr__
+            if f.attr == '__setattr__' and len(args) == 2 and basecls is not None:
+                self._store_builder(args[0], args[1])
+                return None
+            if f.attr == '__getattr__' and basecls is not None and len(args) == 1:
+                raise _Raised(AttributeError('__getattr__'))   # no base class defines it
+            raise _Undecidable(f'{norm(e)[:50]}')
+        return super().eval_call(e, fi, sc)
+
+    def run(self, meth):
+        args = [self.B, self.name] + ([self.VAL] if self.root == '__setattr__' else [])
+        before = dict(self.bdict)
+        try:
+            out = ('returns', self.call_fi(meth, args))
+        except _Raised as r:
+            out = ('raises', type(r.exc).__name__, str(r.exc))
+        # a store written straight into the instance dictionary is a store on the builder
+        for k, v in self.bdict.items():
+            if before.get(k) is not v and not any(t == 'builder' and n == k and x is v for t, n, x in self.effects):
+                self.effects.append(('builder', k, v))
+        return out
+
+
+def rule_redirection(ctx, m, base):
+    """Reads of a name the builder does not have go to the context when it exists and holds the name, else
+    AttributeError; writes go to the context when it exists and holds the name, else to the builder."""
+    prog = ctx.prog
+    own = _builder_own_attrs(prog)
+    ga, sa = base.find_method('__getattr__'), base.find_method('__setattr__')
+    if ga is None or sa is None:
+        ctx.undecided('C17-R2', (m.relpath, 'Builder'), '__setattr__/__getattr__', 'redirection method missing')
+    situations = [(False, False, 'there is no context'), (True, False, 'the context does not hold the name'),
+                  (True, True, 'the context holds the name')]
+    nm = 'current_attribute'
+    for meth, root in ((sa, '__setattr__'), (ga, '__getattr__')):
+        bad, n = [], 0
+        cases = [(nm, h, k, False, txt) for h, k, txt in situations]
+        if root == '__setattr__':
+            cases += [(nm, h, k, True, txt + ', the builder has an attribute of that name') for h, k, txt in situations]
+            cases += [(CTX_ATTR, False, False, False, f'`self.{CTX_ATTR} = ...` without a context'),
+                      (CTX_ATTR, True, False, False, f'`self.{CTX_ATTR} = ...` with a context')]
+        try:
+            for name, has_ctx, holds, bhas, txt in cases:
+                it = _Redirection(prog, base, root, own, name, has_ctx, holds, bhas)
+                out = it.run(meth)
+                n += 1
+                eff = [(t, k) for t, k, v in it.effects if v is it.VAL or t == 'context']
+                if root == '__getattr__':
+                    if has_ctx and holds:
+                        ok = out[0] == 'returns' and out[1] is it.CTXVAL and not it.effects
+                        want = 'the context\'s value is returned'
+                    else:
+                        ok = out[0] == 'raises' and out[1] == 'AttributeError' and not it.effects
+                        want = 'AttributeError is raised'
+                else:
+                    where = 'context' if has_ctx and holds else 'builder'
+                    ok = out[0] == 'returns' and eff == [(where, name)] and all(v is it.VAL for t, k, v in it.effects)
+                    want = f'the value is stored on the {where} only'
+                if not ok:
+                    stores = ' and '.join(f'the {t}' for t, k, v in it.effects)
+                    got = (f'raises {out[1]}' + (f' ({out[2]})' if out[2] and out[1] == 'RecursionError' else '')) if out[0] == 'raises' else \
+                        ('returns ' + ('the context\'s value' if out[1] is it.CTXVAL else repr(out[1]))) if root == '__getattr__' else \
+                        ('stores on ' + (stores or 'nothing'))
+                    if stores and not got.startswith('stores'):
+                        got += f' and stores on {stores}'
+                    bad.append(f'when {txt}: {want}, but the method {got}')
+        except _Undecidable as u:
+            ctx.undecided('C17-R2', meth, 'attribute redirection to the context', f'{root} cannot be evaluated: {u}')
+        ctx.ob('C17-R2', meth, 'attribute redirection to the context', not bad,
+               (f'evaluated in {n} situations (context absent / lacks the name / holds it): '
+                + ('reads of a name the builder lacks are served by the context when it holds the name, else AttributeError'
+                   if root == '__getattr__' else 'a store goes to the context exactly when it exists and holds the name, else to '
+                   'the builder')) if not bad else
+               ('the redirection no longer does what per-flight state relies on - ' + '; '.join(bad[:3])
+                + (': state meant for one flight lands on (or is read from) the builder and is seen by the next flight'
+                   if root == '__setattr__' else '')), nontrivial=bool(bad))
+
+
 ABS_FUNCS = {'abs', 'np.abs', 'numpy.abs', 'np.absolute', 'numpy.absolute', 'np.fabs', 'numpy.fabs', 'math.fabs'}
 TOL_OPTION = 'mass_iter_reltol'
 _FLIP = {ast.Lt: ast.Gt, ast.LtE: ast.GtE, ast.Gt: ast.Lt, ast.GtE: ast.LtE}
@@ -594,15 +890,22 @@ _NEG = {ast.Lt: ast.GtE, ast.LtE: ast.Gt, ast.Gt: ast.LtE, ast.GtE: ast.Lt}
 
 
 class _Gate:
-    """Recognise what a test says about the residual of the mass iteration: |residual| < tolerance ('gate'),
-    only residual < tolerance ('upper'), only residual > -tolerance ('lower'), the negation of a >= test, which a
-    NaN residual also passes ('gate-nan'), or an unclassified statement about the residual ('other')."""
+    """Recognise what a test says about the convergence of the mass iteration.  About the residual of the current
+    iteration: |residual| < tolerance ('gate'), only residual < tolerance ('upper'), only residual > -tolerance
+    ('lower'), the negation of a >= test, which a NaN residual also passes ('gate-nan'), or an unclassified statement
+    about the residual ('other').  About another quantity computed from the current iteration's result (the fuel state
+    of its trajectory, a recomputed leftover): a one-sided comparison with the tolerance of a quantity of which no
+    magnitude is taken ('upper-derived' / 'lower-derived'); every other comparison of such a quantity with the
+    tolerance is 'other'."""
 
-    def __init__(self, fn, is_residual, holders):
+    def __init__(self, fn, is_residual, holders, result_holders=()):
         """is_residual(expr): the expression is the residual of the current iteration; holders: the local names
-        through which it is reached (the residual variable itself, or the variable holding the whole result)"""
+        through which it is reached (the residual variable itself, or the variable holding the whole result);
+        result_holders: the further locals holding a part of the iteration's result (the trajectory)"""
         self.fn, self.is_residual, self.holders = fn, is_residual, set(holders)
+        self.result_holders = set(holders) | set(result_holders)
         self.loose = []   # tolerance expressions wider than the requested one
+        self.signed = {}  # line -> text of a signed quantity compared one-sidedly with the tolerance
 
     def _resolve(self, e, fresh):
         seen = 0
@@ -644,48 +947,159 @@ class _Gate:
     def _is_res(self, e, fresh):
         return self.is_residual(self._resolve(e, fresh))
 
+    def _is_neg_of(self, a, b, fresh):
+        """a is `-b`, b the residual"""
+        a = self._resolve(a, fresh)
+        return isinstance(a, ast.UnaryOp) and isinstance(a.op, ast.USub) and self._is_res(a.operand, fresh) \
+            and self._is_res(b, fresh)
+
     def _is_mag(self, e, fresh):
+        """abs(residual), abs(-residual), max(residual, -residual)"""
         e = self._resolve(e, fresh)
-        return isinstance(e, ast.Call) and call_name(e) in ABS_FUNCS and len(e.args) == 1 and not e.keywords \
-            and self._is_res(e.args[0], fresh)
+        if not (isinstance(e, ast.Call) and not e.keywords):
+            return False
+        if call_name(e) in ABS_FUNCS and len(e.args) == 1:
+            a = self._resolve(e.args[0], fresh)
+            if isinstance(a, ast.UnaryOp) and isinstance(a.op, ast.USub):
+                a = a.operand
+            return self._is_res(a, fresh)
+        if call_name(e) == 'max' and len(e.args) == 2:
+            a, b = e.args
+            return self._is_neg_of(a, b, fresh) or self._is_neg_of(b, a, fresh)
+        return False
+
+    def _res_derived(self, name, depth=0):
+        d = single_def_value(self.fn, name)
+        return d is not None and depth < 5 and any(
+            isinstance(x, ast.Name) and (x.id in self.holders or (x.id != name and self._res_derived(x.id, depth + 1)))
+            for x in ast.walk(d))
 
     def mentions(self, e, fresh):
-        return any(isinstance(x, ast.Name) and (x.id in self.holders or x.id in fresh) for x in ast.walk(e))
+        """e speaks of the residual of the current iteration (or of a local computed from it)"""
+        return any(isinstance(x, ast.Name) and (x.id in self.holders or (x.id in fresh and self._res_derived(x.id)))
+                   for x in ast.walk(e))
+
+    def derived(self, e, fresh):
+        """e is computed from the current iteration's result (residual or trajectory)"""
+        return any(isinstance(x, ast.Name) and (x.id in self.result_holders or x.id in fresh) for x in ast.walk(e))
+
+    def _sign(self, e, fresh, depth=0):
+        """'nonneg': e cannot be negative whatever the data (a magnitude, an even power, a count, sums / products /
+        quotients of such); 'signed': e is sign-preserving arithmetic over the iteration's data and the builder's
+        state with no magnitude taken of it, so it is negative whenever the data make it so; None: not decided
+        (unknown function)."""
+        if depth > 8:
+            return None
+        e = self._resolve(e, fresh)
+        sg = lambda x: self._sign(x, fresh, depth + 1)  # noqa: E731
+        if isinstance(e, ast.Constant):
+            if isinstance(e.value, (int, float)) and not isinstance(e.value, bool):
+                return 'nonneg' if e.value >= 0 else 'signed'
+            return None
+        if self.is_residual(e):
+            return 'signed'
+        if isinstance(e, ast.Call):
+            nm = call_name(e)
+            if nm in ABS_FUNCS or nm.split('.')[-1] in ('sqrt', 'hypot', 'norm') or nm == 'len':
+                return 'nonneg'
+            if nm.split('.')[-1] in ('max', 'min', 'maximum', 'minimum', 'fmax', 'fmin') and e.args and not e.keywords \
+                    and not any(isinstance(a, ast.Starred) for a in e.args) and len(e.args) >= 2:
+                ss = [sg(a) for a in e.args]
+                if nm.split('.')[-1] in ('max', 'maximum', 'fmax') and 'nonneg' in ss:
+                    return 'nonneg'
+                if None in ss:
+                    return None
+                return 'nonneg' if all(x == 'nonneg' for x in ss) else 'signed'
+            if nm in ('float', 'np.float64', 'numpy.float64') and len(e.args) == 1 and not e.keywords:
+                return sg(e.args[0])
+            return None
+        if isinstance(e, ast.UnaryOp):
+            if isinstance(e.op, ast.UAdd):
+                return sg(e.operand)
+            if isinstance(e.op, ast.USub):
+                return None if sg(e.operand) is None else 'signed'
+            return None
+        if isinstance(e, ast.BinOp):
+            if isinstance(e.op, ast.Pow):
+                k = e.right.value if isinstance(e.right, ast.Constant) else None
+                if isinstance(k, int) and not isinstance(k, bool) and k >= 0:
+                    return 'nonneg' if k % 2 == 0 else sg(e.left)
+                return None
+            if isinstance(e.op, (ast.Add, ast.Sub, ast.Mult, ast.Div)):
+                a, b = sg(e.left), sg(e.right)
+                if a is None or b is None:
+                    return None
+                if a == b == 'nonneg' and not isinstance(e.op, ast.Sub):
+                    return 'nonneg'
+                return 'signed'
+            return None
+        # a datum: a field / element of the iteration's result or of the builder's state
+        root = e
+        while isinstance(root, (ast.Attribute, ast.Subscript)):
+            root = root.value
+        if isinstance(root, ast.Name) and isinstance(e, (ast.Attribute, ast.Subscript)) \
+                and (root.id == 'self' or root.id in self.result_holders):
+            return 'signed'
+        return None
 
     def atom(self, e, pol, fresh):
-        if not self.mentions(e, fresh):
+        if not self.derived(e, fresh):
             return None
+        k, against_tol = self._classify(e, pol, fresh)
+        if k == 'other' and not against_tol and not self.mentions(e, fresh):
+            return None   # a test of the trajectory that is not about convergence
+        return k   # ('other-bound': an unclassified ordering comparison of a quantity of this iteration - it may bound it)
+
+    def _classify(self, e, pol, fresh):
+        """(kind, the test compares something with the tolerance)"""
         if isinstance(e, ast.Compare) and len(e.ops) == 2 and pol:
             a, b, c = e.left, e.comparators[0], e.comparators[1]
             o1, o2 = type(e.ops[0]), type(e.ops[1])
             if o1 in (ast.Lt, ast.LtE) and o2 in (ast.Lt, ast.LtE) and self._neg_tol(a) and self._is_res(b, fresh) \
                     and self._tol(c):
-                return 'gate'
+                return 'gate', True
             if o1 in (ast.Gt, ast.GtE) and o2 in (ast.Gt, ast.GtE) and self._tol(a) and self._is_res(b, fresh) \
                     and self._neg_tol(c):
-                return 'gate'
-            return 'other'
+                return 'gate', True
+            return 'other-bound', any(self._tol(x) or self._neg_tol(x) for x in (a, b, c))
         if isinstance(e, ast.Compare) and len(e.ops) == 1 and type(e.ops[0]) in _FLIP:
             l, op, r = e.left, type(e.ops[0]), e.comparators[0]
             if self._tol(l) or self._neg_tol(l):
                 l, r, op = r, l, _FLIP[op]
+            bound = 1 if self._tol(r) else -1 if self._neg_tol(r) else 0
+            if not bound:
+                return 'other-bound', False
             neg = not pol
             if neg:
                 op = _NEG[op]
-            kind = None
-            recognised = (self._tol(r) and (self._is_mag(l, fresh) or self._is_res(l, fresh))) \
-                or (self._neg_tol(r) and self._is_res(l, fresh))
-            if not recognised:
-                return 'other'
-            if self._tol(r) and op in (ast.Lt, ast.LtE):
-                kind = 'gate' if self._is_mag(l, fresh) else 'upper'
-            elif self._neg_tol(r) and op in (ast.Gt, ast.GtE):
-                kind = 'lower'
-            if kind is None:
-                return None  # this edge says the residual is *outside* the bound
+            # `-x < b` says `x > -b`
+            l = self._resolve(l, fresh)
+            while isinstance(l, ast.UnaryOp) and isinstance(l.op, ast.USub):
+                l, op, bound = self._resolve(l.operand, fresh), _FLIP[op], -bound
+            if self._is_mag(l, fresh):
+                if bound < 0:
+                    return 'other-bound', True
+                if op not in (ast.Lt, ast.LtE):
+                    return None, True
+                kind = 'gate'
+            else:
+                if self._is_res(l, fresh):
+                    suffix = ''
+                elif self._sign(l, fresh) == 'signed':
+                    suffix = '-derived'
+                else:
+                    return 'other-bound', True
+                if bound > 0 and op in (ast.Lt, ast.LtE):
+                    kind = 'upper' + suffix
+                elif bound < 0 and op in (ast.Gt, ast.GtE):
+                    kind = 'lower' + suffix
+                else:
+                    return None, True  # this edge says the quantity is *outside* the bound
+                if suffix:
+                    self.signed.setdefault(getattr(e, 'lineno', 0), norm(l))
             # a negated comparison is also true for a NaN residual
-            return kind + '-nan' if neg else kind
-        return 'other'
+            return (kind + '-nan' if neg else kind), True
+        return 'other', False
 
     def facts(self, test, pol, fresh):
         """kinds established on the edge on which `test` has truth value `pol`"""
@@ -800,7 +1214,7 @@ def rule_convergence(ctx, m):
             if ds and all(isinstance(d, ast.Assign) and len(d.targets) == 1 and isinstance(d.targets[0], ast.Name)
                           and boolish(d.value) for d in ds):
                 flags.add(x.id)
-    gate = _Gate(fn, is_res, holders - ({tvar} if tvar else set()))
+    gate = _Gate(fn, is_res, holders - ({tvar} if tvar else set()), holders)
     seen_kinds = {}   # kind -> [line]
     foreign = []      # stores to the pair that are not a joint assignment from one iteration
 
@@ -862,7 +1276,7 @@ def rule_convergence(ctx, m):
                     if same and 'gate' in kf:
                         p.add('nimp')
                 return (ok, same, with_flags(st, ok, {x: p}), fresh)
-            if gate.mentions(v, fresh) and len(local_defs(fn, x)) == 1:
+            if gate.derived(v, fresh) and len(local_defs(fn, x)) == 1:
                 return (ok, same, fl, fresh | {x})
         if bound & fresh:
             return (ok, same, fl, fresh - bound)
@@ -902,6 +1316,11 @@ def rule_convergence(ctx, m):
     ctx.floor('C17-R3/tests', tests, 1, 'tests of the residual in _iterate_mass')
     ctx.stats['_iterate_mass.residual_tests'] = {k: sorted(set(v)) for k, v in seen_kinds.items()}
     ctx.stats['_iterate_mass.flags'] = sorted(flags)
+    ups = sorted(k for k in seen_kinds if k.startswith('upper-derived'))
+    los = sorted(k for k in seen_kinds if k.startswith('lower-derived'))
+    one_sided = [] if (ups and los) else ups + los
+    unclassified_bound = 'other-bound' in seen_kinds   # some comparison may supply the bound that seems to be missing
+    two_sided_derived = sorted({ln for k in ups + los for ln in seen_kinds[k]}) if (ups and los) else []
     for r in rets:
         ok, same, fl, fresh = ins[r.id]
         v = r.stmt.value
@@ -918,9 +1337,26 @@ def rule_convergence(ctx, m):
         elif not same:
             why = (f'`{tdesc}` and `{rdesc}` can come from different iterations here: the residual that was tested is '
                    'not the residual of the trajectory that is returned')
-        elif 'upper' in seen_kinds and 'lower' not in seen_kinds:
+        elif 'upper' in seen_kinds and 'lower' not in seen_kinds and not unclassified_bound:
             why = (f'the test at line {seen_kinds["upper"][0]} compares the signed residual: any negative residual '
                    '(fuel deficit) counts as converged')
+        elif 'upper' not in seen_kinds and 'lower' in seen_kinds and not unclassified_bound:
+            why = (f'the test at line {seen_kinds["lower"][0]} bounds the signed residual from below only: any positive '
+                   'residual (fuel surplus), however large, counts as converged')
+        elif one_sided and not unclassified_bound:
+            up = one_sided[0].startswith('upper')
+            ln = seen_kinds[one_sided[0]][0]
+            why = (f'the test at line {ln} compares `{gate.signed.get(ln, "a signed quantity")}` with the tolerance from '
+                   f'{"above" if up else "below"} only; that quantity is computed from the iteration\'s result by '
+                   'sign-preserving arithmetic and no absolute value is taken of it, so any '
+                   + ('negative value (more fuel burned than loaded), however large,' if up else
+                      'positive value (fuel left over), however large,')
+                   + f' counts as converged: abs({rdesc}) < options.{TOL_OPTION} is not established for the returned '
+                   'trajectory and no non-convergence is reported')
+        elif two_sided_derived:
+            ctx.undecided('C17-R3', it, norm(r.stmt), 'a quantity computed from the iteration\'s result, not its '
+                          f'residual, is bounded on both sides (lines {two_sided_derived}); whether that quantity equals '
+                          'the residual is not decided')
         elif 'gate-nan' in seen_kinds or 'upper-nan' in seen_kinds:
             ln = (seen_kinds.get('gate-nan') or seen_kinds.get('upper-nan'))[0]
             why = (f'convergence is concluded from the *failure* of a >= test (line {ln}): a NaN residual fails it too '
@@ -928,8 +1364,9 @@ def rule_convergence(ctx, m):
         elif gate.loose:
             why = (f'the residual is tested against `{norm(gate.loose[0])}` (line {gate.loose[0].lineno}), which is '
                    f'wider than the requested options.{TOL_OPTION}')
-        elif 'other' in seen_kinds:
-            ctx.undecided('C17-R3', it, norm(r.stmt), f'the residual is tested at line {seen_kinds["other"][0]} in a '
+        elif 'other' in seen_kinds or unclassified_bound:
+            ln = (seen_kinds.get('other-bound') or seen_kinds.get('other'))[0]
+            ctx.undecided('C17-R3', it, norm(r.stmt), f'the residual is tested at line {ln} in a '
                           'form that is not recognised as |residual| < tolerance')
         else:
             why = 'a trajectory can be returned without the convergence test having succeeded for it'
@@ -1014,16 +1451,17 @@ def _type_names(h):
     return [norm(x) for x in (h.type.elts if isinstance(h.type, ast.Tuple) else [h.type])]
 
 
-def _handler_obligations(ctx, where, fw, rule='C17-R4'):
+def _handler_obligations(ctx, where, fw, rule='C17-R4', lookup_call=None):
     """R4 for one function: returns the number of handlers / finally blocks examined"""
     n = 0
     for h, t, nested in fw.handlers():
         n += 1
         what = f'except {", ".join(_type_names(h)) if h.type else ""}'.strip()
-        if fw.body_can_only_fail_locally(t, h):
+        if fw.body_can_only_fail_locally(t, h, lookup_call):
             ctx.ob(rule, where, f'{what} re-raises unchanged', True,
-                   'the protected block has no call and no raise and only look-up errors are caught: nothing of the '
-                   'flight can be intercepted here', line=h.lineno, nontrivial=False)
+                   'the protected block only looks things up (no call beyond the attribute protocol, no raise of anything '
+                   'else) and only look-up errors are caught: nothing of the flight can be intercepted here',
+                   line=h.lineno, nontrivial=False)
             continue
         bad = []
         if fw.swallows(h):
@@ -1085,14 +1523,12 @@ def rule_handlers(ctx, m, fly_fw=None):
     n = 0
     for b in builders:
         for meth in b.methods.values():
-            if meth.name in ('__getattr__', '__setattr__'):
-                continue
             if not any(isinstance(x, ast.Try) for x in walk_no_nested(meth.node)):
                 continue
             manages = any(isinstance(x, ast.stmt) and (_is_acquire(x) or _is_release(x)) for x in walk_no_nested(meth.node))
             fw = fly_fw if (fly_fw is not None and fly_fw.fn is meth.node) else \
                 FlightWrapper(meth.node, own, assume_acquired=not manages)
-            n += _handler_obligations(ctx, meth, fw)
+            n += _handler_obligations(ctx, meth, fw, lookup_call=lookup_call_in(prog, meth, 0, (meth,)))
     ctx.ob('C17-R4', (m.relpath, 'Builder'), f'{n} exception handlers / finally blocks on builder methods', True,
            'each examined on the CFG' if n else 'none: rejections propagate unchanged', nontrivial=False)
     # positive control: a handler that annotates the exception from context-backed state and an unbound local
